@@ -66,6 +66,7 @@ fn main() {
         "C13" => props::c13::run(rest),
         "C15" => props::c15::run(rest),
         "C16" => props::c16::run(rest),
+        "C17" => props::c17::run(rest),
         "C18" => props::c18::run(rest),
         other => {
             eprintln!("unknown command {other}");
